@@ -223,6 +223,8 @@ ObsFlags(w, ev) ==
       maskBad == {s \in 1..Len(o.st) :
                     (SeqToSet(o.st[s].mask) \ w.resid[s]) # {h[1] : h \in DOMAIN w.comp[s]}
                     \/ Len(o.st[s].mask) # Cardinality(SeqToSet(o.st[s].mask))}
+      \* aliveness as seen through the entities resource a storage fetched
+      feBad == {s \in 1..Len(o.st) : Has(o.st[s], "ealive") /\ o.st[s].ealive # o.alive}
       evBad == IF ev.op = "Fault" THEN {}
                ELSE {s \in 1..Len(o.st) : Has(o.st[s], "evs") /\ ~EvMatch(w.evq[s], o.st[s].evs)}
   IN   {F(AliveProp(w, ev), "is_alive mismatch", o.hs[i]) : i \in aliveBad}
@@ -230,6 +232,7 @@ ObsFlags(w, ev) ==
   \cup (IF joinBad THEN {F(AliveProp(w, ev), "entities join mismatch (join, lending join)", <<o.join, IF Has(o, "joinl") THEN o.joinl ELSE <<>>>>)} ELSE {})
   \cup {F(CompProp(w, ev, o.hs[p[2]]), "component lookup mismatch", <<p[1], o.hs[p[2]], o.st[p[1]].get[p[2]]>>) : p \in stBad}
   \cup {F(CompProp(w, ev, <<-1, -1>>), "mask mismatch", s) : s \in maskBad}
+  \cup {F(AliveProp(w, ev), "is_alive through a storage's fetched entities differs from Entities::is_alive", s) : s \in feBad}
   \cup {F("C12", "event stream mismatch (storage, expected, received)", <<s, w.evq[s], o.st[s].evs>>) : s \in evBad}
   \cup (IF evBad # {} /\ ((ev.op = "WOp" /\ ev.k = "restrict") \/ (ev.op = "SOp" /\ ev.path \in {"r_get_other", "rl_get_other", "rm_get_other", "rm_get_other_mut"}))
         THEN {F("C13", "events after an operation on a restricted storage (storage, expected, received)", <<s, w.evq[s], o.st[s].evs>>) : s \in evBad} ELSE {})
